@@ -35,6 +35,7 @@ func init() {
 	ruleText["R17.3"] = "the constraint evaluator consults //go:build expressions (go/build/constraint, Context.MatchFile, or raw comment text containing go:build)"
 	ruleText["R17.4"] = "a negative selection verdict prevents reading/parsing the file on every control-flow path"
 	ruleText["R17.6"] = "a loop that adds tags to Context.BuildTags has no break/return/goto; in the evaluator's loop over the file's comment groups no continue/break is guarded by a condition on the group's text other than an emptiness test"
+	ruleText["R17.7"] = "in the file-name rule, every return after the split of the name that can keep the file is reached only on paths where the last element has been looked up in (or decided against) both the OS and the architecture table (go/cfg must-analysis, short-circuit conditions split per operand)"
 	ruleText["R17.5"] = "the go1.N tag is satisfied exactly when N <= the context's last release tag (equivalent to membership in ReleaseTags)"
 }
 
@@ -313,6 +314,7 @@ func runC17(c *Config, r *Report) {
 	}
 	cmpTable("os", osTab, ref.knownOS)
 	cmpTable("arch", archTab, ref.knownArch)
+	c17R7(ic, r, ic.G.Funcs[skipFn], osTab, archTab)
 
 	// The file-name rule goes through matchTag too in the reference (goodOSArchFile), so the
 	// implied OS tags apply to suffixes as well.
@@ -980,4 +982,281 @@ func impliedPairs(ic *IC, decls []*FuncInfo) (claimed map[string]bool, undecided
 		})
 	}
 	return
+}
+
+// c17R7: the keep verdicts of the file-name rule. A file name whose last underscore-separated
+// element is a known OS other than GOOS, or a known architecture other than GOARCH, is
+// excluded by the Go toolchain whatever precedes it (go/build.goodOSArchFile looks at the
+// last element first). So on every path of the name rule that ends in "keep the file" (return
+// false, or a computed verdict) after the name has been split, the last element must have
+// been decided against the OS table and against the architecture table: tested in the table,
+// or found equal to GOOS/GOARCH, or found in the other table (the tables are disjoint).
+func c17R7(ic *IC, r *Report, skipDecl *FuncInfo, osTab, archTab *types.Var) {
+	if osTab == nil || archTab == nil {
+		return // delegated form, decided by R17.1
+	}
+	body := skipDecl.Decl.Body
+	name := funcName(skipDecl.Decl)
+	info := ic.Info
+	// the split of the name and the "last element" expressions
+	var splitStmt ast.Node
+	var arr types.Object
+	ast.Inspect(body, func(n ast.Node) bool {
+		if as, ok := n.(*ast.AssignStmt); ok && len(as.Lhs) == 1 && len(as.Rhs) == 1 && splitStmt == nil {
+			if c, ok := unparen(as.Rhs[0]).(*ast.CallExpr); ok && isCallTo(info, c, "strings.Split") {
+				if id, ok := as.Lhs[0].(*ast.Ident); ok {
+					splitStmt, arr = as, info.ObjectOf(id)
+				}
+			}
+		}
+		return true
+	})
+	if splitStmt == nil || arr == nil {
+		r.Errorf("R17.7: the split of the file name (strings.Split) was not found in %s", name)
+		return
+	}
+	// the _test suffix is not a constraint: goodOSArchFile removes it before looking at the
+	// elements, so x_windows_test.go is excluded on linux like x_windows.go.
+	{
+		fg := buildFlow(body, info)
+		stripped := false
+		ast.Inspect(body, func(n ast.Node) bool {
+			switch x := n.(type) {
+			case *ast.AssignStmt:
+				if len(x.Rhs) == 1 {
+					if c, ok := unparen(x.Rhs[0]).(*ast.CallExpr); ok && isCallTo(info, c, "strings.TrimSuffix") && len(c.Args) == 2 {
+						if tv, ok := info.Types[c.Args[1]]; ok && tv.Value != nil && tv.Value.ExactString() == `"_test"` {
+							if d, ok := fg.dominates(x, splitStmt); ok && d {
+								stripped = true
+							}
+						}
+					}
+				}
+			case *ast.IfStmt:
+				// every _test file excluded unconditionally
+				if c, ok := unparen(x.Cond).(*ast.CallExpr); ok && isCallTo(info, c, "strings.HasSuffix") && len(c.Args) == 2 {
+					if tv, ok := info.Types[c.Args[1]]; ok && tv.Value != nil && tv.Value.ExactString() == `"_test"` && len(x.Body.List) == 1 {
+						if rs, ok := x.Body.List[0].(*ast.ReturnStmt); ok && len(rs.Results) == 1 && types.ExprString(rs.Results[0]) == "true" {
+							if d, ok := fg.dominates(x.Cond, splitStmt); ok && d {
+								stripped = true
+							}
+						}
+					}
+				}
+			}
+			return true
+		})
+		r.Check(stripped, "R17.7", name+"/test-suffix-removed-before-split", ic.pos(splitStmt.Pos()), "the _test suffix is removed before the name is split into elements",
+			"the name is split into elements with its _test suffix still attached (no strings.TrimSuffix(name, \"_test\") dominates the split): for x_windows_test.go the last element is \"test\", so the file is loaded on every platform when test files are requested, although the Go toolchain excludes it")
+	}
+	isLenMinus1 := func(e ast.Expr) bool {
+		be, ok := unparen(e).(*ast.BinaryExpr)
+		if !ok || be.Op != token.SUB {
+			return false
+		}
+		if tv, ok := info.Types[be.Y]; !ok || tv.Value == nil || tv.Value.ExactString() != "1" {
+			return false
+		}
+		c, ok := unparen(be.X).(*ast.CallExpr)
+		if !ok || len(c.Args) != 1 {
+			return false
+		}
+		fid, ok := c.Fun.(*ast.Ident)
+		if !ok || fid.Name != "len" {
+			return false
+		}
+		aid, ok := unparen(c.Args[0]).(*ast.Ident)
+		return ok && info.ObjectOf(aid) == arr
+	}
+	lastIdx := map[types.Object]bool{}
+	lastElt := map[types.Object]bool{}
+	var isLast func(e ast.Expr) bool
+	isLast = func(e ast.Expr) bool {
+		switch x := unparen(e).(type) {
+		case *ast.Ident:
+			return lastElt[info.ObjectOf(x)]
+		case *ast.IndexExpr:
+			aid, ok := unparen(x.X).(*ast.Ident)
+			if !ok || info.ObjectOf(aid) != arr {
+				return false
+			}
+			if isLenMinus1(x.Index) {
+				return true
+			}
+			if iid, ok := unparen(x.Index).(*ast.Ident); ok && lastIdx[info.ObjectOf(iid)] {
+				return true
+			}
+		}
+		return false
+	}
+	for round := 0; round < 2; round++ {
+		ast.Inspect(body, func(n ast.Node) bool {
+			as, ok := n.(*ast.AssignStmt)
+			if !ok || len(as.Lhs) != len(as.Rhs) {
+				return true
+			}
+			for i, l := range as.Lhs {
+				id, ok := l.(*ast.Ident)
+				if !ok {
+					continue
+				}
+				if isLenMinus1(as.Rhs[i]) {
+					lastIdx[info.ObjectOf(id)] = true
+				}
+				if isLast(as.Rhs[i]) {
+					lastElt[info.ObjectOf(id)] = true
+				}
+			}
+			return true
+		})
+	}
+	if len(lastElt) == 0 {
+		r.Errorf("R17.7: no variable holding the last element of the split name recognised in %s", name)
+		return
+	}
+	// atoms
+	const (
+		fOS   = 1
+		fARCH = 2
+	)
+	isCtxField := func(e ast.Expr, f string) bool {
+		v := selField(info, e)
+		return v != nil && v.Name() == f && v.Pkg() != nil && v.Pkg().Path() == "go/build"
+	}
+	// atomFacts returns the facts established on the true and on the false outcome of cond
+	// (a single comparison or table lookup; go/cfg has already split && and ||).
+	var atomFacts func(cond ast.Expr) (t, f int)
+	atomFacts = func(cond ast.Expr) (int, int) {
+		switch x := unparen(cond).(type) {
+		case *ast.IndexExpr:
+			if id, ok := unparen(x.X).(*ast.Ident); ok && isLast(x.Index) {
+				switch info.ObjectOf(id) {
+				case types.Object(osTab):
+					return fOS | fARCH, fOS
+				case types.Object(archTab):
+					return fOS | fARCH, fARCH
+				}
+			}
+		case *ast.BinaryExpr:
+			// go/cfg splits && and || of if conditions, not of switch cases: combine here.
+			if x.Op == token.LAND {
+				at, af := atomFacts(x.X)
+				bt, bf := atomFacts(x.Y)
+				return at | bt, af & (at | bf)
+			}
+			if x.Op == token.LOR {
+				at, af := atomFacts(x.X)
+				bt, bf := atomFacts(x.Y)
+				return at & (af | bt), af | bf
+			}
+			if x.Op == token.EQL || x.Op == token.NEQ {
+				a, b := x.X, x.Y
+				if !isLast(a) {
+					a, b = b, a
+				}
+				if isLast(a) && (isCtxField(b, "GOOS") || isCtxField(b, "GOARCH")) {
+					if x.Op == token.EQL {
+						return fOS | fARCH, 0
+					}
+					return 0, fOS | fARCH
+				}
+			}
+		case *ast.UnaryExpr:
+			if x.Op == token.NOT {
+				t, f := atomFacts(x.X)
+				return f, t
+			}
+		}
+		return 0, 0
+	}
+	exprFacts := func(e ast.Expr) int {
+		facts := 0
+		ast.Inspect(e, func(m ast.Node) bool {
+			if ex, ok := m.(ast.Expr); ok {
+				t, f := atomFacts(ex)
+				facts |= t & f // established whatever the outcome
+				if be, ok := ex.(*ast.BinaryExpr); ok && (be.Op == token.EQL || be.Op == token.NEQ) {
+					if t|f == fOS|fARCH {
+						facts |= fOS | fARCH // y == GOOS / y != GOARCH as the verdict itself
+					}
+				}
+			}
+			return true
+		})
+		return facts
+	}
+	g := cfg.New(body, func(c *ast.CallExpr) bool { return !noReturn(info, c) })
+	// forward must-analysis, facts per block entry (start: after the split; before it: "top")
+	const top = fOS | fARCH | 4
+	in := map[*cfg.Block]int{}
+	for _, b := range g.Blocks {
+		in[b] = top
+	}
+	if len(g.Blocks) > 0 {
+		in[g.Blocks[0]] = 4 // entry: nothing decided; bit 4 = "split not yet executed"
+	}
+	type verdict struct {
+		ret   *ast.ReturnStmt
+		facts int
+	}
+	var verdicts []verdict
+	for iter, changed := 0, true; changed && iter < 100; iter++ {
+		changed = false
+		verdicts = verdicts[:0]
+		for _, b := range g.Blocks {
+			if !b.Live {
+				continue
+			}
+			st := in[b]
+			for _, n := range b.Nodes {
+				if n == splitStmt {
+					st = 0
+				}
+				if rs, ok := n.(*ast.ReturnStmt); ok && len(rs.Results) == 1 && st&4 == 0 {
+					verdicts = append(verdicts, verdict{rs, st | exprFacts(rs.Results[0])})
+				}
+			}
+			outT, outF := st, st
+			if len(b.Succs) == 2 && len(b.Nodes) > 0 {
+				if cond, ok := b.Nodes[len(b.Nodes)-1].(ast.Expr); ok && st&4 == 0 {
+					t, f := atomFacts(cond)
+					outT, outF = st|t, st|f
+				}
+			}
+			for i, s := range b.Succs {
+				o := outT
+				if i == 1 {
+					o = outF
+				}
+				if n := in[s] & o; n != in[s] {
+					in[s] = n
+					changed = true
+				}
+			}
+		}
+	}
+	nKeep := 0
+	for _, v := range verdicts {
+		isTrue := false
+		if id, ok := unparen(v.ret.Results[0]).(*ast.Ident); ok && id.Name == "true" {
+			isTrue = true
+		}
+		if isTrue {
+			continue // an exclusion verdict needs no further look at the name
+		}
+		nKeep++
+		var missing []string
+		if v.facts&fOS == 0 {
+			missing = append(missing, "the OS table")
+		}
+		if v.facts&fARCH == 0 {
+			missing = append(missing, "the architecture table")
+		}
+		key := fmt.Sprintf("%s/keep-verdict#%d/last-element-decided", name, nKeep)
+		r.Check(len(missing) == 0, "R17.7", key, ic.pos(v.ret.Pos()), "the last name element has been decided against both tables on every path to this verdict",
+			"some path reaches this verdict ("+types.ExprString(v.ret.Results[0])+", the file may be kept) without the last element of the name having been checked against "+strings.Join(missing, " and ")+": a file such as x_foo_windows.go or x_linux_windows.go is loaded on linux although the Go toolchain excludes it (goodOSArchFile decides on the last element)")
+	}
+	if nKeep == 0 {
+		r.Errorf("R17.7: no keep verdict found after the split in %s", name)
+	}
 }
